@@ -68,7 +68,7 @@ def required_counters(tier):
         "conj.dtype_fail": 20,
         "conj.any_missing_attr": 5,
         "transcripts_compared": 1000,
-        "prior_nonempty": 1000, "annotation_object_rechecked": 5000, "br.named.hostile_axis_name": 500, "temporaries.checks": 100,
+        "prior_nonempty": 1000, "annotation_object_rechecked": 5000, "br.named.hostile_axis_name": 500, "temporaries.checks": 100, "array_type_membership.steps": 30,
     }
     return base
 
@@ -394,6 +394,8 @@ def run_shard(rec, seed, shard, tier):
         real.toplevel_probes(rec, None, "after the hostile prelude")
     if shard["i"] % 4 == 1:
         real.temporaries_probe(rec, "C01")  # short-lived values whose id() is handed on
+    if shard["i"] % 4 in (0, 3):
+        real.array_type_membership_probe(rec, "C01")
     n = CASES[tier]
     for k in range(n):
         rng = random.Random(f"{seed}/C01/{shard['i']}/{k}")
